@@ -65,6 +65,11 @@ struct Thr {
   const void* last_addr = nullptr;
   uint64_t last_val = 0, last_progress = 0;
   int spin_count = 0;
+  // period-2 spins (a loop polling two locations alternately, e.g. try_lock_checking of
+  // atomic_intrusive_list): the load before the last one
+  const void* last2_addr = nullptr;
+  uint64_t last2_val = 0;
+  int spin2_count = 0;
   bool parked = false;
   uint64_t park_progress = 0;
   uint64_t yield_progress = 0;
@@ -264,7 +269,7 @@ void reschedule(Thr* me) {
     if (E.size() > 1) ex.rec.choices.push_back(next);
     if (next == CLOCK_TID) { int64_t to; if (clock_can_advance(ex, &to)) { ex.vnow = to; ex.progress++; } continue; }
     Thr* n = ex.thr[next];
-    if (forced) { n->parked = false; n->spin_count = 0; n->yield_progress = ex.progress - 1; }
+    if (forced) { n->parked = false; n->spin_count = 0; n->spin2_count = 0; n->yield_progress = ex.progress - 1; }
     ex.current = next;
     if (n == me) return;
     n->baton.post();
@@ -288,14 +293,18 @@ void pre_atomic(const void* a) {
 }
 void post_load(const void* a, uint64_t v) {
   Thr* me = tl_me; ExecState& ex = *g_ex;
-  if (me->last_addr == a && me->last_val == v && me->last_progress == ex.progress) me->spin_count++;
+  bool fresh = me->last_progress != ex.progress;
+  if (!fresh && me->last_addr == a && me->last_val == v) me->spin_count++;
   else me->spin_count = 0;
+  if (!fresh && me->last2_addr == a && me->last2_val == v) me->spin2_count++;
+  else me->spin2_count = 0;
+  me->last2_addr = me->last_addr; me->last2_val = me->last_val;
   me->last_addr = a; me->last_val = v; me->last_progress = ex.progress;
-  if (me->spin_count >= 3) { me->parked = true; me->park_progress = ex.progress; } else me->parked = false;
+  if (me->spin_count >= 3 || me->spin2_count >= 6) { me->parked = true; me->park_progress = ex.progress; } else me->parked = false;
   trace_op("ld", a, v);
 }
 void post_write(const void* a, uint64_t v) {
-  Thr* me = tl_me; me->last_addr = nullptr; me->spin_count = 0; me->parked = false;
+  Thr* me = tl_me; me->last_addr = nullptr; me->last2_addr = nullptr; me->spin_count = 0; me->spin2_count = 0; me->parked = false;
   note_write(*g_ex); trace_op("wr", a, v);
 }
 
